@@ -20,7 +20,7 @@ Local Open Scope Z_scope.
 Inductive pfrag :=
 | PDec (nid : N) (kind name : string)
 | PTok (len : Z)
-| PStr (len : Z) (multi : bool)        (* multi: a raw string with embedded line breaks *)
+| PStr (len : Z) (nl : nat)           (* nl: the number of line breaks inside a raw string (0 for every other string) *)
 | PBad (len : Z)
 | PCom (d : dec)
 | PNl (empty : bool).
@@ -117,7 +117,7 @@ Fixpoint fstmt (t : tree) (fk : list (string * kid ftree)) (r : fres) (s : gstmt
   | GStr v p =>
     match fval t fk v with
     | Some (VStr l nls _) => let c := at_pos t fk p (f_cur r) in
-                             femit r c (PStr l (match nls with [] => false | _ => true end)) (c + l)
+                             femit r c (PStr l (List.length nls)) (c + l)
     | _ => ferr r
     end
   | GBad from =>
@@ -197,7 +197,8 @@ Definition dec_len (d : dec) : Z := match d with DLine l _ | DBlock l _ _ | DOth
 Definition avoid_of (fi : finfo) (comments : list (Z * dec)) (nodes : list pitem) : list Z :=
   flat_map (fun c => match snd c with DBlock l _ _ => span_avoid fi (fst c) l | _ => [] end) comments ++
   flat_map (fun it => match snd it with
-                      | PStr l true => span_avoid fi (fst it) l
+                      | PStr _ (S n) =>   (* endLine = startLine + strings.Count(s, "\n"): the length is no guide, the scanner strips CRs *)
+                        let s := line_of fi (fst it) in map (fun i => s + Z.of_nat i + 1) (seq 0 (S n))
                       | PBad l => span_avoid fi (fst it) l
                       | _ => []
                       end) nodes.
